@@ -1383,7 +1383,8 @@ sf_command	(SNDFILE *sndfile, int command, void *data, int datasize)
 			{	psf->error = SFE_BAD_COMMAND_PARAM ;
 				return SF_FALSE ;
 				} ;
-			if (psf->cues == NULL && (psf->cues = psf_cues_dup (data, datasize)) == NULL)
+			free (psf->cues) ;
+			if ((psf->cues = psf_cues_dup (data, datasize)) == NULL)
 			{	psf->error = SFE_MALLOC_FAILED ;
 				return SF_FALSE ;
 				} ;
